@@ -245,6 +245,14 @@ def run(ctx: Ctx):
         at = {a for a in fgv.guard_atoms(fcfg.node_of(cw), stable_only=False, after_loops=False) if not a.startswith("IN-LOOP:")}
         ctx.ob("C08-O5", "R12 NO-CARDINALITY-CUTOFF", f, "every input arc enters the residual network (the construction loop is unconditional)", not at, f"arcs are filtered under {sorted(at)}", node=cw)
 
+    # the rows of the residual table come from the defaultdict factory only: a row assigned wholesale throws away the
+    # cells written before (the reverse arcs `capacity[v][u] += 0` of tails read earlier), and the search loses the
+    # arcs it needs to cancel flow
+    rows = [n for n in own_nodes(f.node) if isinstance(n, (ast.Assign, ast.AugAssign, ast.Delete)) for t in (n.targets if isinstance(n, (ast.Assign, ast.Delete)) else [n.target]) if isinstance(t, ast.Subscript) and isinstance(t.value, ast.Name) and t.value.id == "capacity"]
+    calls_ = [n for n in own_nodes(f.node) if isinstance(n, ast.Call) and isinstance(n.func, ast.Attribute) and n.func.attr in ("pop", "clear", "popitem", "update", "setdefault") and ast.unparse(n.func.value).split("[")[0] == "capacity"]
+    bad_ = rows + calls_
+    ctx.ob("C08-O5", "R27 WRITE-OWNERSHIP", f, "rows of the residual capacity table are never assigned, replaced or removed as a whole (cells are accumulated with +=)", not bad_, f"`{ast.unparse(bad_[0])[:50]}`: the row may already hold reverse arcs of tails that were read earlier; without them the search cannot take flow back and stops below the maximum" if bad_ else "", node=bad_[0] if bad_ else f.node)
+
     # O3 loops
     main = [n for n in own_nodes(f.node) if isinstance(n, ast.While) and any(isinstance(c, ast.Call) and ast.unparse(c.func) == "bfs" for c in ast.walk(n.test))]
     ctx.require(len(main) == 1, "augmentation loop `while ... bfs()` not found")
@@ -405,7 +413,16 @@ def _v_warm_start_two_hop_routes(tree):
     g.body[k[0]:k[0]] = M.stmts("for m, cap, *_ in graph.get(source, ()):\n    push = min(cap, capacity[m].get(sink, 0))\n    if push > 0:\n        flow[source][m] += push\n        flow[m][sink] += push\n        total_flow += push")
 
 
+def _v_row_assigned_wholesale(tree):
+    g = M.find_func(tree, "max_flow")
+    loop = [x for x in ast.walk(g) if isinstance(x, ast.For) and M.src_is(x.iter, "graph")]
+    if not loop:
+        raise M.Skip("table build loop not found")
+    loop[0].body[0:0] = M.stmts("capacity[u] = defaultdict(int)")
+
+
 VARIANTS = [
+    M.Variant("the build loop gives every listed node a fresh row, dropping reverse arcs entered earlier (seed C08-S)", FL, _v_row_assigned_wholesale, "C08-O5"),
     M.Variant("warm start fills two-hop routes by hand before the first search (seed C08-Q)", FL, _v_warm_start_two_hop_routes, "C08-O3"),
 
     M.Variant("the table returned as flow values starts as a copy of the capacities (seed C08-K)", FL, _v_flow_table_from_capacities, "C08-O4"),
